@@ -150,6 +150,7 @@ func c18Exec(plan *Plan, st *Stats) *Violation {
 		traces := make([]strings.Builder, nr)
 		cur, inBurst, callbacks, bursts, rr := -1, false, 0, 0, 0
 		var step func(r int) bool
+		burstKind := ""
 		burst := func() {
 			if inBurst || settling {
 				return
@@ -172,6 +173,9 @@ func c18Exec(plan *Plan, st *Stats) *Violation {
 				if done > 0 {
 					rr = b + 1
 					bursts++
+					if st != nil {
+						st.probe("burst_inside_" + burstKind)
+					}
 					return
 				}
 			}
@@ -187,11 +191,23 @@ func c18Exec(plan *Plan, st *Stats) *Violation {
 					failed[r] = "load failed: " + err.Error()
 					return true
 				}
-				d.h.onCall = func(kind, name string) { burst() }
+				d.h.onCall = func(kind, name string) {
+					burstKind = "host_function"
+					if kind == "cmd" {
+						burstKind = "command_handler"
+					}
+					burst()
+				}
 				if d.h.rec != nil {
-					d.h.rec.onRead = func(string) { burst() }
+					d.h.rec.onRead = func(string) { burstKind = "storer_read"; burst() }
 				}
 				dyn[r] = d
+				for o := range dyn {
+					if o != r && dyn[o] != nil && ptr[o] > 0 && ptr[o] < len(cp.Runners[o].Ops) && st != nil {
+						st.probe("runner_created_between_steps_of_another")
+						break
+					}
+				}
 				return true
 			}
 			if ptr[r] >= len(cp.Runners[r].Ops) {
